@@ -175,7 +175,7 @@ theorem opCfg_operator (upper : Text → Text) : OpCfg (cfgOperator upper) :=
         | none => cases h
         | some n' => cases h; exact ⟨n', rfl, rfl⟩ }
 
-theorem setTType_respell_of_match (ha : Admissible upper f) {x : Node} (h : (cfgOperator upper).isMatch x = true) :
+theorem setTType_respell_of_match (ha : AdmissibleNames upper f) {x : Node} (h : (cfgOperator upper).isMatch x = true) :
     respell f (x.setTType Gen.group_operator_ttype_set0) = (respell f x).setTType Gen.group_operator_ttype_set0 := by
   have hop : f ["Operator"] = fun v => v := by
     funext v; exact ha.plain ["Operator"] v (by decide) (by decide)
@@ -198,7 +198,7 @@ theorem postOperator_respell_at (cur : List Node) (t : Nat)
     | none => rfl
     | some n' => simp [List.map_set, hx x hc]
 
-theorem cfgOperator_respell (ha : Admissible upper f) :
+theorem cfgOperator_respell (ha : AdmissibleNames upper f) :
     CfgComm f (cfgOperator upper) (OpInv (cfgOperator upper)) :=
   { isMatch := fun k => respell_imt ha k [] [] Gen.group_operator_imt0_t rfl
     validPrev := fun k => by
